@@ -9,6 +9,7 @@ import (
 	_ "verif/checks/s11"
 	_ "verif/checks/s13"
 	_ "verif/checks/s14"
+	_ "verif/checks/s17"
 	_ "verif/checks/s18"
 )
 
